@@ -106,11 +106,15 @@ prop(
     ["contracts.c08_controllers"],
     "proof",
     "contract-based deductive verification: contracts on the real regulate/__init__/selection functions, loop invariants for rule and slave selection, VCs from the AST discharged by z3/cvc5",
-    "direction, amount and exactly-once delegation are postconditions proved for all pool states, parameters, intervals and tables of any length (selection loops by inductive invariants over the table)",
+    "direction, amount and exactly-once delegation are postconditions proved for all pool states, parameters, intervals and tables of any length (selection loops by inductive invariants over the table); that the constructors build tables satisfying those invariants is proved per table size 0..3 for every declaration order and all real thresholds",
     "trusted: pyvc's Python semantics, floats as reals, well-behaved pool, slaved controllers/rules as abstract callables; constructor-established table invariants as stated per function in the evidence",
     trusted=["hypothesis: the target pool stores demand faithfully and reading its attributes is pure",
              "hypothesis: slaved controllers and rules are arbitrary callables (one event per call)",
-             "BOUNDED (not proved): RangeSelector._compile_lookup and DemandSwitch.__init__ establish the table invariants (lookup_inv / ascending) - exhaustive native enumeration of small tables, see coverage.bounded",
+             "PER SIZE: the table constructors (RangeSelector._compile_lookup, Stepwise.__init__, UnboundStepwise.__init__/add/__call__, DemandSwitch.__init__) are proved to establish "
+             "the table invariants (lookup_inv / ascending) for tables of 0..3 entries given in every order with arbitrary real thresholds (one contract per size; sorted() explored as "
+             "one path per ordering consistent with the path condition, ties = the TypeError Python raises when it falls through to comparing the rules/controllers)",
+             "BOUNDED (not proved): tables of 4 and 5 entries - exhaustive native enumeration over a threshold grid, see coverage.bounded; larger tables: not covered",
+             "assumed: sorted() returns a stable ascending permutation; zip/itertools.chain/iter have their documented one-shot semantics",
              "assumed: trio.sleep(d) advances trio's clock by exactly d or raises Cancelled"],
     design_ref="5/C08",
     bounded="bounded.c08_tables",
